@@ -13,7 +13,7 @@ use serde_json::{json, Value};
 use std::sync::Arc;
 
 pub fn count(tier: Tier) -> u64 {
-    tier.pick(240, 3600)
+    tier.pick(240, 9000)
 }
 
 /// Case kinds: bare content packs (C01's generator), bare directory packs (C02/C03/C15 generators),
